@@ -239,7 +239,7 @@ def sample(ctx, budget=1.0, hint=None, broken=None):
         nontriv.add((cls, n, cont, any(s.start == s.end for s in segs)))
         # light mutation history before the queries (start/end caches must follow)
         if r.random() < 0.3:
-            form = r.choice(['pos', 'neg', 'slice'])
+            form = r.choice(['pos', 'neg', 'slice', 'twice', 'pop-append', 'edit-reassign'])
             j = r.randrange(n)
             warm = r.random() < 0.6
             if warm:      # fill the length caches first: the edits below must invalidate what they touch
@@ -256,8 +256,29 @@ def sample(ctx, budget=1.0, hint=None, broken=None):
                 path[j] = new
             elif form == 'neg':
                 path[j - n] = new
-            else:
+            elif form == 'slice':
                 path[j:j + 1] = [new]
+            elif form == 'twice':
+                # the same slot assigned twice in a row, the first value dropped at once (its memory is free for the second)
+                path[j] = P.Line(new.start, new.end + 3)
+                path[j] = P.Line(new.start, new.end)
+                new = path[j]
+            elif form == 'pop-append':
+                # the last segment is removed and a newly created one appended, with no query in between; nothing else refers to the old one
+                j = n - 1
+                segs[j] = None
+                path.pop()
+                path.append(P.Line(new.start, new.end))
+                new = path[-1]
+            else:
+                # 'edit-reassign': the segment object is edited in place and then assigned to its own slot again
+                if isinstance(segs[j], P.Arc):
+                    path[j] = new
+                else:
+                    same = path[j]
+                    same.end = same.end + complex(0.5, 7.25)
+                    path[j] = same
+                    new = same
             segs[j] = new
             desc += ' then item %s assignment at %d of %r' % (form, j, new)
             if r.random() < 0.5:      # a second edit at the same position, back to back (no query in between)
